@@ -991,6 +991,19 @@ def _np_full_like(it, args, kwargs):
     return NDArr(it.ctx, Seq(a.seq.len, lambda j: val, V), kind, "fresh", None)
 
 
+def _np_zeros_like(it, args, kwargs):
+    """np.zeros_like(a, dtype=None): a new array of a's length; False for a boolean result, 0 for an integer one
+    (other result dtypes are not modelled)."""
+    a = as_arr(it, args[0])
+    dtype = args[1] if len(args) > 1 else kwargs.get("dtype")
+    kind = a.kind if dtype is None else astype_kind(it, dtype)
+    if isinstance(kind, str) and kind == "bool":
+        return NDArr(it.ctx, Seq(a.seq.len, lambda j: z3.BoolVal(False), BOOL), "bool", "fresh", None)
+    if isinstance(kind, str) and kind == "int":
+        return NDArr(it.ctx, Seq(a.seq.len, lambda j: z3.IntVal(0), INT), "int", "fresh", None)
+    raise Unsupported(f"zeros_like with result kind {kind!r}")
+
+
 class NpStringsFn:
     """numpy.strings.<name>: only its identity is modelled (which function a proxy forwards to); calling it is unsupported"""
     def __init__(self, name):
@@ -1071,6 +1084,14 @@ def _np_unique(it, args, kwargs):
         raise Unsupported("np.unique without return_index / with return_inverse")
     ctx = it.ctx
     s = a.seq
+    if s.sort == V:
+        # np.unique sorts: in an object array None cannot be ordered against anything (TypeError), not even against None
+        j0 = ctx.fresh("j", INT)
+        is_obj = kind_is(a.kind, "object")
+        if is_obj is not False:
+            ctx.prove("pre:np.unique(no None among the elements of an object array: they must be orderable)",
+                      z3.Implies(z3.And(is_obj if not isinstance(is_obj, bool) else z3.BoolVal(is_obj), in_range(j0, s.len), zint(s.len) >= 2),
+                                 s.at(j0) != NONE), kind="pre")
     q = z3.Int("q!un")
     equal_nan = kwargs.get("equal_nan", True)
     if equal_nan is not True and equal_nan is not False:
@@ -1087,6 +1108,11 @@ def _np_unique(it, args, kwargs):
     pm = Perm(ctx, e.cnt, "uniqorder")
     idx = Seq(e.cnt, lambda j: e.idx(pm.perm(j)), INT)
     idx.sorted_seq = inc
+    # every first occurrence appears in the index vector, at position inv(r) (consequence of the bijection axioms; stated
+    # with the trigger idx(r) so that the position is available to E-matching)
+    r_ = z3.Int("r!un")
+    ctx.assumptions.append(z3.ForAll([r_], z3.Implies(in_range(r_, e.cnt), z3.And(in_range(pm.inv(r_), e.cnt), pm.perm(pm.inv(r_)) == r_)),
+                                     patterns=[e.idx(r_)]))
     vals = NDArr(ctx, Seq(e.cnt, lambda j: s.at(e.idx(pm.perm(j))), s.sort), a.kind, "fresh", a.cls)
     return (vals, NDArr(ctx, idx, "int", "fresh", a.cls))
 
@@ -1172,6 +1198,7 @@ def make_np(it):
         "isnan": ModelFn("np.isnan", _np_isnan), "isnat": ModelFn("np.isnat", _np_isnat),
         "argsort": ModelFn("np.argsort", _m_argsort),
         "array": ModelFn("np.array [fresh]", _np_array), "full_like": ModelFn("np.full_like [fresh]", _np_full_like),
+        "zeros_like": ModelFn("np.zeros_like [fresh]", _np_zeros_like),
         "vectorize": ModelFn("np.vectorize", lambda it_, a, k: Vectorized(a[0])), "lexsort": ModelFn("np.lexsort", _np_lexsort),
         "split": ModelFn("np.split [views]", _np_split), "unique": ModelFn("np.unique(return_index)", _np_unique), "dtype": ModelFn("np.dtype", _np_dtype),
         "isscalar": ModelFn("np.isscalar", lambda it_, a, k: not isinstance(a[0], (NDArr, MList, PyList, Seq, list, tuple, dict, GenValue))
